@@ -1032,7 +1032,7 @@ func staleCarry(v ssa.Value, loop *natLoop) *ssa.Phi {
 			return find(y.X, depth+1)
 		case *ssa.Phi:
 			if y.Block() == loop.header {
-				if carriesItself(y, loop) {
+				if carriesItself(y, loop) && !keyedMemo(y, loop) {
 					return y
 				}
 				return nil
@@ -1644,4 +1644,84 @@ func memoHitAt(b *ssa.BasicBlock, obj ssa.Value) bool {
 	}
 	collect(b, root(obj), 0)
 	return scalar && ptr
+}
+
+// keyedMemo: the carried variable v is a memo keyed by another carried variable k — wherever v keeps its old
+// value, a test `elemKey != k` (or `==`) has just found the element's key equal to k, and wherever the
+// test finds them different both are assigned together, k the element's key:
+//
+//	if loc.Field != lastField { lastID = lookup(loc.Field); lastField = loc.Field }
+//
+// so v always belongs to the current element's key.
+func keyedMemo(v *ssa.Phi, loop *natLoop) bool {
+	for b := range loop.blocks {
+		for _, in := range b.Instrs {
+			m, ok := in.(*ssa.Phi)
+			if !ok {
+				break
+			}
+			if len(m.Edges) != 2 || b == loop.header {
+				continue
+			}
+			// m merges "v unchanged" with "v newly assigned"
+			keep := -1
+			for i, e := range m.Edges {
+				if e == ssa.Value(v) {
+					keep = i
+				}
+			}
+			if keep < 0 {
+				continue
+			}
+			// the branch that decides
+			var iff *ssa.If
+			var ib *ssa.BasicBlock
+			for x := b.Idom(); x != nil; x = x.Idom() {
+				if i2, ok := x.Instrs[len(x.Instrs)-1].(*ssa.If); ok && loop.blocks[x] {
+					iff, ib = i2, x
+					break
+				}
+			}
+			if iff == nil {
+				continue
+			}
+			bo, ok := iff.Cond.(*ssa.BinOp)
+			if !ok || (bo.Op != token.NEQ && bo.Op != token.EQL) {
+				continue
+			}
+			var kphi *ssa.Phi
+			var elemKey ssa.Value
+			if p, ok := bo.Y.(*ssa.Phi); ok && p.Block() == loop.header {
+				kphi, elemKey = p, bo.X
+			} else if p, ok := bo.X.(*ssa.Phi); ok && p.Block() == loop.header {
+				kphi, elemKey = p, bo.Y
+			}
+			if kphi == nil || kphi == v {
+				continue
+			}
+			// the "keep" edge is the side on which the keys were found equal
+			equalSucc := ib.Succs[1]
+			if bo.Op == token.EQL {
+				equalSucc = ib.Succs[0]
+			}
+			keepPred := b.Preds[keep]
+			if !(keepPred == ib && equalSucc == b) && !(equalSucc == keepPred || equalSucc.Dominates(keepPred)) {
+				continue
+			}
+			// in the same join, k takes the element's key on the other side
+			for _, in2 := range b.Instrs {
+				mk, ok := in2.(*ssa.Phi)
+				if !ok {
+					break
+				}
+				if mk == m || len(mk.Edges) != 2 {
+					continue
+				}
+				if mk.Edges[keep] == ssa.Value(kphi) && sameQuantity(mk.Edges[1-keep], elemKey, 0) {
+					return true
+				}
+			}
+		}
+	}
+	return false
 }
